@@ -49,7 +49,7 @@ GEN = [(r'\ref{KEY}', '0'), (r'\pageref{KEY}', '0'), (r'\eqref{KEY}', '(0)'),
        (r'\parencite{KEY}', '[0]'), (r'\Parencite{KEY}', '[0]'), (r'\AA', 'Å'), (r'\O', 'Ø'), (r'\OE', 'Œ'), (r'\ae', 'æ'), (r'\l', 'ł'), (r'\oe', 'œ'),
        (r'\Glspl{zzgl}', 'Glsplurals'), (r'\GLSpl{zzgl}', 'GLSPLURALS'), (r'\Glsdesc{zzgl}', 'Descr words'), (r'\GLSdesc{zzgl}', 'DESCR WORDS'),
        (r'\glstext{zzgm}', 'secondtext'), (r'\Glstext{zzgl}', 'Glstext one'), (r'\GLStext{zzgm}', 'SECONDTEXT'), (r'\Cite[KEY][]{KEY}', '[KEY 0]'), (r'\LaTeX{}', 'LaTeX'),
-       (r'\zzvb', 'Bodyverb Verbtwo'), (r'\zzbody', 'Bodyone Bodytwo'), (r'\zzhd', 'About LaTeX.'), (r'\gls{zzgn}', 'LaTeX editor'), (r'\GLS{zzgn}', 'LaTeX EDITOR'), (r'\zzopt{KEY}', 'Defword'),
+       (r'\zzvb', 'Bodyverb Verbtwo'), (r'\zzbody', 'Bodyone Bodytwo'), (r'\zzhd', 'About LaTeX.'), (r'\gls{zzgn}', 'LaTeX editor, too now'), (r'\GLS{zzgn}', 'LaTeX EDITOR, TOO NOW'), (r'\zzopt{KEY}', 'Defword'),
        (r'\gls{zzgl}', 'glstext one'), (r'\Gls{zzgl}', 'Glstext one'), (r'\GLS{zzgl}', 'GLSTEXT ONE'),
        (r'\cref{zzeq}', 'eq. (0)'), (r'\Cref{zzeq}', 'Equation (0)'), (r'\cref{zzsec}', 'section 0'),
        (r'\crefrange{zzeq}{zzer}', 'eqs. (0) to (0)'), (r'\cref{zzeq}', 'eq. (0)'), (r'\cref{zzlong}', 'see eq'),
@@ -104,7 +104,7 @@ SED = (r's/\\cref{zzeq}/\\cref@equation@name \\nobreakspace \\textup {(\\ref {zz
        r's/\\cref@section@name /section/g' '\n')
 DEFS = ('\\gls@defglossaryentry{zzgl}{name={Glsname},text={glstext one},plural={glsplurals},description={descr\n                           words}}\n'
         '\\gls@defglossaryentry{zzgm}{name={Other},text={secondtext},plural={seconds},description={d}}\n'
-        '\\gls@defglossaryentry{zzgn}{name={N},text={\\LaTeX{} editor},plural={\\TeX{} editors},description={d}}\n')
+        '\\gls@defglossaryentry{zzgn}{name={N},text=\\LaTeX{} \\textbf{editor, too} now,plural={\\TeX{} editors},description={d}}\n')
 WORD_RE = re.compile(r'W[éäж]?[a-j]{3}[qé]')
 CW_END = re.compile(r'\\[a-zA-Z@]+$')
 ASCII_LETTERS = 'abcdefghijklmnopqrstuvwxyzABCDEFGHIJKLMNOPQRSTUVWXYZ'
